@@ -263,6 +263,11 @@ func TestVerifRelayDeadlines(t *testing.T) {
 		c := take()
 		tc.Close()
 		d := take()
-		fmt.Fprintf(w, "%s SetDeadline=%s SetReadDeadline=%s SetWriteDeadline=%s Close=%s\n", f[0], a, b, c, d)
+		// a record larger than the reader's buffer: an error for the caller, and NOTHING on the wire (Read never writes)
+		lg := &rlLog{reads: []rlRd{{[]byte{0x17, 0x03, 0x03, 0x75, 0x30}, 'n'}, {make([]byte, 100), 'n'}}}
+		u2 := &rlDlConn{rlConn: rlConn{lg, "s"}}
+		n, rerr := NewTLSConn(u2).Read(make([]byte, 1024))
+		rd := fmt.Sprintf("%d:%v:%s:%s", n, rerr == io.ErrShortBuffer, strings.Join(lg.evs, "+"), strings.Join(u2.calls, "+"))
+		fmt.Fprintf(w, "%s SetDeadline=%s SetReadDeadline=%s SetWriteDeadline=%s Close=%s OversizeRead=%s\n", f[0], a, b, c, d, rd)
 	}
 }
